@@ -378,6 +378,14 @@ def exec (cfg : Cfg) (H : Hashes) (s : State) : List Op → State × List Obs
   order (`PhaseOp`, `execPhases`); the atomic `run` is the special case in which the phases of one request are
   consecutive (`run_eq_phases`, Lemmas/CfflPhase.lean). -/
 
+/-- The attributes of the loop object behind the part of `State` through which one phase of a request can
+    influence a later phase (`State.br`, `State.cache`).  Extractor E2 observes on the real code which attributes
+    are modified in one phase of `run` and read in a later one (`Gen.GateTable.carried`); they must all be here
+    (`c07_request_state_is_local`), otherwise `finish` would have to take more than `(p, z, y)` and the state. -/
+def stateAttrs : List String :=
+  ["_circuit_state", "_failure_count", "_success_count", "_last_failure", "_last_success", "_trips_count",
+   "_total_errors", "_cache"]
+
 /-- `run` up to "Create signal": circuit check, then cache look-up.  `none`: the agents have to be consulted. -/
 def lookupCache (cfg : Cfg) (H : Hashes) (s : State) (p : Prompt) : State × Option Out :=
   if cfg.cacheOn then
